@@ -1,10 +1,20 @@
 """C19  Critical points are found, classified, ordered and selected correctly.
 
-Deductive part (real code, extracted mechanically): the nested `remove_dup` of
-critical.find_critical on symbolic points -- kept points are pairwise >= 1e-5 apart (squared
-distance), every input is within 1e-5 of a kept point, first occurrences are kept in order.
+Deductive part (real code):
+ * the whole real `find_critical` on a symbolic 5x5 grid (one interior candidate node) with
+   the spline replaced by a contract stub (fresh value per evaluation point and derivative
+   order), `inv`/`dot` by the 2x2 inverse and matrix-vector product: every returned point
+   has Br^2+Bz^2 < atol AT the returned position, carries psi of that position, lies within
+   3 cells of its candidate node, is classified X iff the Hessian determinant of the data is
+   negative (psi samples of an arbitrary quadratic: the stencil is exact there), and every
+   Newton update solves J d = B with J the Jacobian of (Br, Bz) (spec from the calculus);
+ * the tail of `find_critical` (duplicate removal, primary O-point, monotonic-line filter,
+   X-point ordering), sliced mechanically from the function body, on symbolic points with
+   three families of line profiles (monotone: kept; overshoot > 0.1%: dropped; minimum away
+   from the O-point: dropped);
+ * the nested `remove_dup` on symbolic points.
 Completeness ("every critical point is found") and sub-grid accuracy depend on the spline,
-the Bp^2 local-minimum scan and Newton iteration: bounded, on smooth psi with planted
+the Bp^2 local-minimum scan and Newton convergence: bounded, on smooth psi with planted
 non-degenerate critical points at arbitrary sub-grid positions (both psi signs, two
 resolutions, symmetric and offset domains).
 """
@@ -42,6 +52,210 @@ def make_dup_run(n):
                     continue
                 ctx.oblige(Or(*[d2(p, r) < 1.0e-5 for r in res if next(i for i, q in enumerate(pts) if q is r) < k]), "dropped point %d is within 1e-5 of an earlier kept point" % k)
         return res
+
+    return run
+
+
+class SplineStub:
+    """Contract stub for RectBivariateSpline: one fresh real per (point, dx, dy)."""
+
+    last = None
+
+    def __init__(self, x, y, z, **kw):
+        self.vals = {}
+        self.points = []  # scalar evaluation points in call order
+        SplineStub.last = self
+
+    def sym(self, R, Z, dx=0, dy=0):
+        from vc.sym import _ctx
+
+        from vc.sym import lift
+
+        R, Z = lift(R), lift(Z)
+        k = (R.t.get_id(), Z.t.get_id(), dx, dy)
+        if k not in self.vals:
+            self.vals[k] = (_ctx().real("f!%d_%d%d" % (len(self.vals), dx, dy)), R, Z)  # (R, Z kept alive: ids stay unique)
+        return self.vals[k][0]
+
+    def __call__(self, R, Z, dx=0, dy=0, grid=True):
+        if isinstance(R, numpy.ndarray):
+            out = numpy.empty(R.shape, dtype=object)
+            for idx in numpy.ndindex(*R.shape):
+                out[idx] = self.sym(R[idx], Z[idx], dx, dy)
+            return out
+        if not self.points or not (self.points[-1][0] is R and self.points[-1][1] is Z):
+            self.points.append((R, Z))
+        v = self.sym(R, Z, dx, dy)
+        if grid:
+            a = numpy.empty((1, 1), dtype=object)
+            a[0, 0] = v
+            return a
+        return v
+
+
+def lift_id(x):
+    from vc.sym import lift
+
+    return lift(x).t.get_id()
+
+
+def _unwrap(x):
+    while isinstance(x, numpy.ndarray):
+        x = x.reshape(-1)[0]  # numpy converts a size-1 array stored into a float array element
+    return x
+
+
+def inv_stub(J):
+    a, b, c, d = (_unwrap(J[0, 0]), _unwrap(J[0, 1]), _unwrap(J[1, 0]), _unwrap(J[1, 1]))
+    det = a * d - b * c
+    if det == 0:
+        raise numpy.linalg.LinAlgError("Singular matrix")
+    out = numpy.empty((2, 2), dtype=object)
+    out[0, 0], out[0, 1], out[1, 0], out[1, 1] = d / det, -b / det, -c / det, a / det
+    return out
+
+
+def dot_stub(M, v):
+    return numpy.array([M[0, 0] * v[0] + M[0, 1] * v[1], M[1, 0] * v[0] + M[1, 1] * v[1]], dtype=object)
+
+
+def obj_zeros(shape):
+    a = numpy.empty(shape, dtype=object)
+    a[...] = 0.0
+    return a
+
+
+def critical_patches():
+    import types
+
+    from hypnotoad.utils import critical
+
+    from vc.shim import NumpyShim
+
+    return ((critical, "linspace", NumpyShim().linspace), (critical, "interpolate", types.SimpleNamespace(RectBivariateSpline=SplineStub)), (critical, "inv", inv_stub), (critical, "dot", dot_stub), (critical, "zeros", obj_zeros), (critical, "print", lambda *a, **k: None))
+
+
+def run_newton(ctx):
+    """Real find_critical, 5x5 grid, maxits=1."""
+    from hypnotoad.utils import critical
+    from vc.shim import patched
+
+    Rc, Zc, dR, dZ = ctx.real("Rc"), ctx.real("Zc"), ctx.real("dR"), ctx.real("dZ")
+    atol = ctx.real("atol")
+    # pre: the Newton search disc (3 cells) of the candidate node lies in R > 0
+    ctx.assume(And(dR > 0, dZ > 0, Rc - 2 * dR > 0, atol > 0, Rc > 0, Rc * Rc > 9 * (dR * dR + dZ * dZ)))
+    c = [ctx.real("q%d" % k) for k in range(6)]
+    R = numpy.empty((5, 5), dtype=object)
+    Z = numpy.empty((5, 5), dtype=object)
+    psi = numpy.empty((5, 5), dtype=object)
+    for i in range(5):
+        for j in range(5):
+            x, y = (i - 2) * dR, (j - 2) * dZ
+            R[i, j], Z[i, j] = Rc + x, Zc + y
+            psi[i, j] = c[0] + c[1] * x + c[2] * y + c[3] * x * x + c[4] * x * y + c[5] * y * y
+    with patched(*critical_patches()):
+        op, xp = critical.find_critical(R, Z, psi, atol, 1)
+    f = SplineStub.last
+    with spec_mode():
+        D = 4 * c[3] * c[5] - c[4] * c[4]
+        ctx.oblige(TRUE(len(op) + len(xp) <= 1), "one candidate node gives at most one point")
+        for kind, pts in (("O", op), ("X", xp)):
+            for pR, pZ, pP in pts:
+                fR, fZ = f.sym(pR, pZ, 1, 0), f.sym(pR, pZ, 0, 1)
+                ctx.oblige((fZ / pR) ** 2 + (fR / pR) ** 2 < atol, "returned point: Br^2+Bz^2 < atol at the returned position")
+                ctx.oblige(_unwrap(pP) == f.sym(pR, pZ, 0, 0), "returned point carries psi of the returned position")
+                ctx.oblige((pR - R[2, 2]) ** 2 + (pZ - Z[2, 2]) ** 2 <= 9 * (dR * dR + dZ * dZ), "returned point within 3 cells of its candidate node")
+                ctx.oblige((D < 0) if kind == "X" else (D >= 0), "classified %s-point by the sign of the Hessian determinant of the data (stencil exact on quadratics)" % kind)
+                ctx.oblige((D >= 0) if kind == "X" else (D < 0), "twin: classification reversed", kind="must-fail")
+                ctx.oblige((fZ / pR) ** 2 + (fR / pR) ** 2 < atol / 2, "twin: tighter tolerance than asked", kind="must-fail")
+        for (aR, aZ), (bR, bZ) in zip(f.points, f.points[1:]):
+            fR, fZ, fRR, fZZ, fRZ = (f.sym(aR, aZ, *d) for d in ((1, 0), (0, 1), (2, 0), (0, 2), (1, 1)))
+            Br, Bz = -fZ / aR, fR / aR
+            J00, J01 = fZ / (aR * aR) - fRZ / aR, -fZZ / aR
+            J10, J11 = -fR / (aR * aR) + fRR / aR, fRZ / aR
+            dRn, dZn = aR - bR, aZ - bZ
+            ctx.oblige(And(J00 * dRn + J01 * dZn == Br, J10 * dRn + J11 * dZn == Bz), "Newton update solves J d = (Br,Bz) with J the Jacobian of (Br,Bz) = (-psi_Z/R, psi_R/R)")
+    return op, xp
+
+
+def tail_function():
+    """find_critical from 'Remove duplicates' to its end, as a function of its live variables."""
+    import ast
+    import inspect
+    import textwrap
+
+    from hypnotoad.utils import critical
+
+    fdef = ast.parse(textwrap.dedent(inspect.getsource(critical.find_critical))).body[0]
+    k = next(i for i, st in enumerate(fdef.body) if isinstance(st, ast.FunctionDef) and st.name == "remove_dup")
+    f = ast.FunctionDef(name="_tail", args=ast.arguments(posonlyargs=[], args=[ast.arg(arg=a) for a in ("R", "Z", "f", "xpoint", "opoint")], kwonlyargs=[], kw_defaults=[], defaults=[]), body=fdef.body[k:], decorator_list=[], type_params=[])
+    mod = ast.Module(body=[f], type_ignores=[])
+    ast.fix_missing_locations(mod)
+    loc = {}
+    exec(compile(mod, "<vc:find_critical[tail]>", "exec"), critical.__dict__, loc)
+    return loc["_tail"], len(fdef.body) - k
+
+
+class LineStub:
+    """f(rline, zline, grid=False) along the O-point -> X-point line: profile family given."""
+
+    def __init__(self, profile):
+        self.profile = profile
+
+    def __call__(self, r, z, grid=True, **kw):
+        return self.profile(r, z)
+
+
+def make_tail_run(family):
+    def run(ctx):
+        from vc.shim import patched
+
+        tail, _ = tail_function()
+        Rlo, Rhi, Zlo, Zhi = 1.0, 2.0, -1.0, 1.0
+        R = numpy.array([[Rlo, Rlo], [Rhi, Rhi]])
+        Z = numpy.array([[Zlo, Zhi], [Zlo, Zhi]])
+        O = [(ctx.real("Ro%d" % k), ctx.real("Zo%d" % k), ctx.real("Po%d" % k)) for k in range(2)]
+        X = [(ctx.real("Rx%d" % k), ctx.real("Zx%d" % k), ctx.real("Px%d" % k)) for k in range(2)]
+        d2 = lambda a, b: (a[0] - b[0]) ** 2 + (a[1] - b[1]) ** 2
+        # pre: points already distinct (remove_dup has its own contract), X-points differ in psi from the axis
+        ctx.assume(And(d2(O[0], O[1]) >= 1e-5, d2(X[0], X[1]) >= 1e-5))
+        ctx.assume(And(*[And(x[2] != O[0][2], x[2] != O[1][2], d2(x, O[0]) > 1e-3, d2(x, O[1]) > 1e-3) for x in X]))
+        mid = (1.5, 0.0, 0.0)
+        ctx.assume(d2(O[0], mid) != d2(O[1], mid))
+        eps = ctx.real("eps")
+
+        def profile(r, z):
+            n = len(r)
+            # which (O, X) pair is this line between?
+            Po = next(o[2] for o in O if lift_id(o[0]) == lift_id(r[0]))
+            Px = next(x[2] for x in X if lift_id(x[0]) == lift_id(r[-1]))
+            out = numpy.empty(n, dtype=object)
+            for k in range(n):
+                out[k] = Po + (Px - Po) * k / (n - 1)
+            if family == "overshoot":
+                out[n // 2] = Px + eps * (Px - Po)  # beyond the X-point value by eps*(range)
+            if family == "minimum-away":
+                out[n - 5] = Po - eps * (Px - Po)  # a second extremum beyond the axis value, near the X-point
+            return out
+
+        if family == "overshoot":
+            ctx.assume(eps > 0.0011)
+        if family == "minimum-away":
+            ctx.assume(And(eps > 0, eps < 0.0005))
+        with patched(*critical_patches()):
+            op, xp = tail(R, Z, LineStub(profile), list(X), list(O))
+        with spec_mode():
+            ctx.oblige(TRUE(len(op) == 2 and {id(p) for p in op} == {id(p) for p in O}), "O-points: the same points, reordered only")
+            ctx.oblige(d2(op[0], mid) <= d2(op[1], mid), "primary O-point is the one nearest the domain centre")
+            ctx.oblige(d2(op[0], mid) >= d2(op[1], mid), "twin: farthest first", kind="must-fail")
+            if family == "monotone":
+                ctx.oblige(TRUE(len(xp) == 2 and {id(p) for p in xp} == {id(p) for p in X}), "psi monotone from the primary O-point to each X-point: both X-points kept, exactly once")
+                if len(xp) == 2:
+                    ctx.oblige((xp[0][2] - op[0][2]) ** 2 <= (xp[1][2] - op[0][2]) ** 2, "X-points ordered by |psi - psi_axis| of the PRIMARY O-point")
+                    ctx.oblige((xp[0][2] - op[0][2]) ** 2 >= (xp[1][2] - op[0][2]) ** 2, "twin: reverse order", kind="must-fail")
+            else:
+                ctx.oblige(TRUE(len(xp) == 0), "%s line profile: X-point discarded" % family)
+        return op, xp
 
     return run
 
@@ -157,11 +371,18 @@ def reference_points(psi, Rr, Zr, dR, dZ):
 
 def build(S):
     S.under_contract(FN)
-    S.assume("external (assumed): RectBivariateSpline; Newton iteration convergence; the Bp^2 local-minimum scan finds every well-separated critical point above a minimum resolution (bounded check only)")
+    S.assume("external contracts (assumed, stubs): numpy.linalg.inv = 2x2 inverse or LinAlgError when singular; numpy.dot = matrix-vector product; a size-1 array stored into an array element is its value")
+    S.assume("precondition of find_critical[5x5]: the 3-cell Newton search disc of a candidate node lies in R > 0 (division by R1)")
+    S.assume("external (assumed): RectBivariateSpline = some function with derivatives (fresh value per point and order); Newton iteration convergence; the Bp^2 local-minimum scan finds every well-separated critical point above a minimum resolution (bounded check only)")
     S.extraction.append(dict(function="critical.find_critical.remove_dup", sliced="nested def lifted out unchanged"))
     with numpy_shimmed():
         for n in (1, 2, 3):
             S.contract("remove_dup[n=%d]" % n, FN, make_dup_run(n), shape="n=%d points" % n)
+        S.contract("find_critical[5x5, maxits=1]", FN, run_newton, expected_exceptions=(numpy.linalg.LinAlgError,), raises_ok=lambda p: True, shape="5x5 grid (one interior candidate), psi samples of an arbitrary quadratic, maxits=1")
+        _, nst = tail_function()
+        S.extraction.append(dict(function="critical.find_critical[tail]", sliced="last %d statements of the body (from `def remove_dup` on) compiled as a function of (R, Z, f, xpoint, opoint); nothing dropped" % nst))
+        for fam in ("monotone", "overshoot", "minimum-away"):
+            S.contract("find_critical[tail, %s]" % fam, FN, make_tail_run(fam), shape="2 O-points, 2 X-points, 50-point line profile of the stated family")
 
 
 def post(S):
